@@ -38,6 +38,21 @@ def cases(seed, tier):
             c["eval"] = "vector"
             c.pop("pool", None)
             c["family"] = "vanishing"
+        elif r.random() < 0.15:
+            # very narrow likelihood: the first annealing temperatures are tiny (1e-5..1e-3), where "is this still the warm-up?" tests
+            # that are not exact comparisons with 0 go wrong
+            from .. import targets as T
+
+            d = r.choice([1, 2])
+            c["target"] = dict(T.spec_gauss(d=d, mu=round(r.uniform(-0.3, 0.3), 3), sig=r.choice([0.002, 0.0007, 0.005])), kind="gauss")
+            c["cfg"].update(n_particles=r.choice([16, 32]), clustering=r.random() < 0.7)
+            c["cfg"].pop("periodic", None)
+            c["cfg"].pop("reflective", None)
+            c["n_total"] = 64
+            c["scenario"] = "plain"
+            for k2 in ("like_fault", "save_every", "reconfig", "resume_n_total", "after_exc", "n_total2"):
+                c.pop(k2, None)
+            c["family"] = "narrow"
         out.append(c)
     return out
 
